@@ -16,6 +16,7 @@ import (
 
 	"github.com/renbou/grpcbridge/bridgedesc"
 	vc "github.com/renbou/grpcbridge/internal/zzverif/vcommon"
+	"github.com/renbou/grpcbridge/internal/zzverif/vschema"
 	"github.com/renbou/grpcbridge/transcoding"
 	"google.golang.org/grpc/status"
 	"google.golang.org/protobuf/proto"
@@ -24,304 +25,33 @@ import (
 	"google.golang.org/protobuf/reflect/protoregistry"
 	"google.golang.org/protobuf/types/descriptorpb"
 	"google.golang.org/protobuf/types/dynamicpb"
-	"google.golang.org/protobuf/types/known/fieldmaskpb"
-	"google.golang.org/protobuf/types/known/wrapperspb"
 )
 
-// ---- schema DSL ----
+// ---- schema DSL: package vschema ----
 const (
-	kBool = iota
-	kInt32
-	kInt64
-	kUint32
-	kUint64
-	kFloat
-	kDouble
-	kString
-	kBytes
-	kEnum
-	kMsg
+	kBool   = vschema.KBool
+	kInt32  = vschema.KInt32
+	kInt64  = vschema.KInt64
+	kUint32 = vschema.KUint32
+	kUint64 = vschema.KUint64
+	kFloat  = vschema.KFloat
+	kDouble = vschema.KDouble
+	kString = vschema.KString
+	kBytes  = vschema.KBytes
+	kEnum   = vschema.KEnum
+	kMsg    = vschema.KMsg
 )
 
-var kindTypes = []descriptorpb.FieldDescriptorProto_Type{
-	descriptorpb.FieldDescriptorProto_TYPE_BOOL, descriptorpb.FieldDescriptorProto_TYPE_INT32, descriptorpb.FieldDescriptorProto_TYPE_INT64,
-	descriptorpb.FieldDescriptorProto_TYPE_UINT32, descriptorpb.FieldDescriptorProto_TYPE_UINT64, descriptorpb.FieldDescriptorProto_TYPE_FLOAT,
-	descriptorpb.FieldDescriptorProto_TYPE_DOUBLE, descriptorpb.FieldDescriptorProto_TYPE_STRING, descriptorpb.FieldDescriptorProto_TYPE_BYTES,
-	descriptorpb.FieldDescriptorProto_TYPE_ENUM, descriptorpb.FieldDescriptorProto_TYPE_MESSAGE}
+type (
+	Field  = vschema.Field
+	Msg    = vschema.Msg
+	Schema = vschema.Schema
+)
 
-type Field struct {
-	Name, JSON string
-	Kind       int
-	Msg        int // index into Schema.Msgs for kMsg
-	Card       int // 0 single, 1 list, 2 map
-	KeyKind    int
-	Oneof      int // 0 none, else real oneof id (1..)
-	Optional   bool
-}
-type Msg struct {
-	Name   string // full name
-	WKT    int
-	Fields []Field
-}
-type Schema struct {
-	Msgs []Msg
-}
+var wktKinds = vschema.WktKinds
 
-var enumVals = [][2]any{{"ZERO", 0}, {"ONE", 1}, {"TWO", 2}, {"NEG", -1}, {"BIG", 2147483647}}
-
-var wktNames = map[int]string{1: "Int32Value", 2: "Int64Value", 3: "UInt32Value", 4: "UInt64Value", 5: "BoolValue", 6: "StringValue", 7: "BytesValue", 8: "FloatValue", 9: "DoubleValue", 10: "FieldMask"}
-var wktKinds = map[int]int{1: kInt32, 2: kInt64, 3: kUint32, 4: kUint64, 5: kBool, 6: kString, 7: kBytes, 8: kFloat, 9: kDouble}
-
-func wktMsg(w int) Msg {
-	if w == 10 {
-		return Msg{Name: "google.protobuf.FieldMask", WKT: 10, Fields: []Field{{Name: "paths", JSON: "paths", Kind: kString, Card: 1}}}
-	}
-	return Msg{Name: "google.protobuf." + wktNames[w], WKT: w, Fields: []Field{{Name: "value", JSON: "value", Kind: wktKinds[w]}}}
-}
-
-func jsonName(s string) string {
-	// protoc's default: lowerCamelCase
-	out := []byte{}
-	up := false
-	for i := 0; i < len(s); i++ {
-		if s[i] == '_' {
-			up = true
-			continue
-		}
-		c := s[i]
-		if up && c >= 'a' && c <= 'z' {
-			c -= 32
-		}
-		up = false
-		out = append(out, c)
-	}
-	return string(out)
-}
-
-func kindSpec(k int) vc.Val {
-	if k == kEnum {
-		names := vc.L{}
-		for _, ev := range enumVals {
-			names = append(names, vc.L{ev[0].(string), ev[1].(int)})
-		}
-		return vc.L{9, names}
-	}
-	return vc.L{k}
-}
-
-func (s *Schema) val() vc.Val {
-	out := vc.L{}
-	for _, m := range s.Msgs {
-		fs := vc.L{}
-		syn := 100
-		for _, f := range m.Fields {
-			var ks vc.Val
-			if f.Kind == kMsg {
-				ks = vc.L{1, f.Msg}
-			} else {
-				ks = vc.L{0, kindSpec(f.Kind)}
-			}
-			var card vc.Val = vc.L{f.Card}
-			if f.Card == 2 {
-				card = vc.L{2, kindSpec(f.KeyKind)}
-			}
-			oneof := f.Oneof
-			if f.Optional {
-				syn++
-				oneof = syn
-			}
-			pres := f.Card == 0 && (f.Kind == kMsg || f.Oneof != 0 || f.Optional)
-			fs = append(fs, vc.L{f.Name, f.JSON, ks, card, oneof, pres})
-		}
-		out = append(out, vc.L{m.WKT, fs})
-	}
-	return out
-}
-
-// build compiles the schema into descriptors of its own (the well-known types are COPIES with the same full names, as a
-// target's reflection service would deliver them), registered nowhere globally
-func (s *Schema) build(pkg string) (protoreflect.MessageDescriptor, *dynamicpb.Types) {
-	files := &protoregistry.Files{}
-	for _, src := range []protoreflect.FileDescriptor{wrapperspb.File_google_protobuf_wrappers_proto, fieldmaskpb.File_google_protobuf_field_mask_proto} {
-		fdp := protodesc.ToFileDescriptorProto(src)
-		f, err := protodesc.NewFile(fdp, files)
-		if err != nil {
-			panic(err)
-		}
-		files.RegisterFile(f)
-	}
-	fd := &descriptorpb.FileDescriptorProto{Name: proto.String(pkg + ".proto"), Package: proto.String(pkg), Syntax: proto.String("proto3"),
-		Dependency: []string{"google/protobuf/wrappers.proto", "google/protobuf/field_mask.proto"}}
-	en := &descriptorpb.EnumDescriptorProto{Name: proto.String("E")}
-	for _, ev := range enumVals {
-		en.Value = append(en.Value, &descriptorpb.EnumValueDescriptorProto{Name: proto.String(ev[0].(string)), Number: proto.Int32(int32(ev[1].(int)))})
-	}
-	fd.EnumType = []*descriptorpb.EnumDescriptorProto{en}
-	typeName := func(i int) string { return "." + s.Msgs[i].Name }
-	for _, m := range s.Msgs {
-		if m.WKT != 0 {
-			continue
-		}
-		dp := &descriptorpb.DescriptorProto{Name: proto.String(m.Name[len(pkg)+1:])}
-		nreal := 0
-		for _, f := range m.Fields {
-			if f.Oneof > nreal {
-				nreal = f.Oneof
-			}
-		}
-		for i := 1; i <= nreal; i++ {
-			dp.OneofDecl = append(dp.OneofDecl, &descriptorpb.OneofDescriptorProto{Name: proto.String(fmt.Sprintf("o%d", i))})
-		}
-		for i, f := range m.Fields {
-			fp := &descriptorpb.FieldDescriptorProto{Name: proto.String(f.Name), JsonName: proto.String(f.JSON), Number: proto.Int32(int32(i + 1)),
-				Type: kindTypes[f.Kind].Enum(), Label: descriptorpb.FieldDescriptorProto_LABEL_OPTIONAL.Enum()}
-			setType := func(p *descriptorpb.FieldDescriptorProto, kind, msg int) {
-				p.Type = kindTypes[kind].Enum()
-				if kind == kEnum {
-					p.TypeName = proto.String("." + pkg + ".E")
-				} else if kind == kMsg {
-					p.TypeName = proto.String(typeName(msg))
-				}
-			}
-			switch f.Card {
-			case 0:
-				setType(fp, f.Kind, f.Msg)
-				if f.Oneof != 0 {
-					fp.OneofIndex = proto.Int32(int32(f.Oneof - 1))
-				}
-				if f.Optional {
-					fp.Proto3Optional = proto.Bool(true)
-					fp.OneofIndex = proto.Int32(int32(len(dp.OneofDecl)))
-					dp.OneofDecl = append(dp.OneofDecl, &descriptorpb.OneofDescriptorProto{Name: proto.String("_" + f.Name)})
-				}
-			case 1:
-				setType(fp, f.Kind, f.Msg)
-				fp.Label = descriptorpb.FieldDescriptorProto_LABEL_REPEATED.Enum()
-			case 2:
-				ename := strings.ReplaceAll(strings.Title(strings.ReplaceAll(f.Name, "_", " ")), " ", "") + "Entry"
-				entry := &descriptorpb.DescriptorProto{Name: proto.String(ename), Options: &descriptorpb.MessageOptions{MapEntry: proto.Bool(true)}}
-				kf := &descriptorpb.FieldDescriptorProto{Name: proto.String("key"), JsonName: proto.String("key"), Number: proto.Int32(1), Label: descriptorpb.FieldDescriptorProto_LABEL_OPTIONAL.Enum()}
-				setType(kf, f.KeyKind, 0)
-				vf := &descriptorpb.FieldDescriptorProto{Name: proto.String("value"), JsonName: proto.String("value"), Number: proto.Int32(2), Label: descriptorpb.FieldDescriptorProto_LABEL_OPTIONAL.Enum()}
-				setType(vf, f.Kind, f.Msg)
-				entry.Field = []*descriptorpb.FieldDescriptorProto{kf, vf}
-				dp.NestedType = append(dp.NestedType, entry)
-				fp.Type = descriptorpb.FieldDescriptorProto_TYPE_MESSAGE.Enum()
-				fp.Label = descriptorpb.FieldDescriptorProto_LABEL_REPEATED.Enum()
-				fp.TypeName = proto.String("." + m.Name + "." + ename)
-			}
-			dp.Field = append(dp.Field, fp)
-		}
-		fd.MessageType = append(fd.MessageType, dp)
-	}
-	file, err := protodesc.NewFile(fd, files)
-	if err != nil {
-		panic(fmt.Sprintf("schema does not compile: %v", err))
-	}
-	files.RegisterFile(file)
-	return file.Messages().ByName(protoreflect.Name(s.Msgs[0].Name[len(pkg)+1:])), dynamicpb.NewTypes(files)
-}
-
-// the fixed rich schema
-func richSchema(pkg string) *Schema {
-	s := &Schema{}
-	add := func(m Msg) int { s.Msgs = append(s.Msgs, m); return len(s.Msgs) - 1 }
-	add(Msg{Name: pkg + ".R"})
-	n := add(Msg{Name: pkg + ".N"})
-	d := add(Msg{Name: pkg + ".D"})
-	w := map[int]int{}
-	for _, k := range []int{1, 2, 4, 5, 6, 7, 8, 10} {
-		w[k] = add(wktMsg(k))
-	}
-	s.Msgs[d].Fields = []Field{{Name: "z", Kind: kInt64}, {Name: "name", Kind: kString}, {Name: "e", Kind: kEnum}}
-	s.Msgs[n].Fields = []Field{{Name: "x", Kind: kInt32}, {Name: "y", Kind: kString}, {Name: "deep", Kind: kMsg, Msg: d}, {Name: "rz", Kind: kInt64, Card: 1},
-		{Name: "snake_case", Kind: kUint32}, {Name: "name", Kind: kString}}
-	s.Msgs[0].Fields = []Field{
-		{Name: "i32", Kind: kInt32}, {Name: "i64", Kind: kInt64}, {Name: "u32", Kind: kUint32}, {Name: "u64", Kind: kUint64},
-		{Name: "b", Kind: kBool}, {Name: "s", Kind: kString}, {Name: "by", Kind: kBytes}, {Name: "f", Kind: kFloat}, {Name: "d", Kind: kDouble}, {Name: "e", Kind: kEnum},
-		{Name: "ri", Kind: kInt32, Card: 1}, {Name: "rs", Kind: kString, Card: 1}, {Name: "re", Kind: kEnum, Card: 1}, {Name: "rb", Kind: kBool, Card: 1},
-		{Name: "msi", Kind: kInt32, Card: 2, KeyKind: kString}, {Name: "mis", Kind: kString, Card: 2, KeyKind: kInt32}, {Name: "mbe", Kind: kEnum, Card: 2, KeyKind: kBool},
-		{Name: "mu64", Kind: kInt64, Card: 2, KeyKind: kUint64},
-		{Name: "n", Kind: kMsg, Msg: n}, {Name: "n2", Kind: kMsg, Msg: n}, {Name: "rn", Kind: kMsg, Msg: n, Card: 1},
-		{Name: "oa", Kind: kString, Oneof: 1}, {Name: "ob", Kind: kInt32, Oneof: 1}, {Name: "on", Kind: kMsg, Msg: n, Oneof: 1},
-		{Name: "pa", Kind: kBool, Oneof: 2}, {Name: "pb", Kind: kEnum, Oneof: 2},
-		{Name: "opt", Kind: kInt32, Optional: true}, {Name: "opts", Kind: kString, Optional: true},
-		{Name: "wi", Kind: kMsg, Msg: w[1]}, {Name: "wl", Kind: kMsg, Msg: w[2]}, {Name: "wu", Kind: kMsg, Msg: w[4]}, {Name: "wb", Kind: kMsg, Msg: w[5]},
-		{Name: "ws", Kind: kMsg, Msg: w[6]}, {Name: "wy", Kind: kMsg, Msg: w[7]}, {Name: "wf", Kind: kMsg, Msg: w[8]}, {Name: "fm", Kind: kMsg, Msg: w[10]},
-		{Name: "rw", Kind: kMsg, Msg: w[1], Card: 1},
-		{Name: "snake_case_name", Kind: kString}, {Name: "custom", JSON: "customJSON", Kind: kInt32}, {Name: "UPPER", Kind: kInt32},
-	}
-	for mi := range s.Msgs {
-		for fi := range s.Msgs[mi].Fields {
-			if s.Msgs[mi].Fields[fi].JSON == "" {
-				s.Msgs[mi].Fields[fi].JSON = jsonName(s.Msgs[mi].Fields[fi].Name)
-			}
-		}
-	}
-	return s
-}
-
-// random small schemas
-func randomSchema(r *vc.Rand, pkg string) *Schema {
-	s := &Schema{}
-	nm := 1 + r.Intn(3)
-	for i := 0; i < nm; i++ {
-		s.Msgs = append(s.Msgs, Msg{Name: fmt.Sprintf("%s.M%d", pkg, i)})
-	}
-	wk := []int{1, 5, 6, 10}
-	wbase := len(s.Msgs)
-	for _, k := range wk {
-		s.Msgs = append(s.Msgs, wktMsg(k))
-	}
-	names := []string{"a", "b", "c", "dd", "e_f", "g_h_i", "jK", "l", "m", "nn"}
-	for i := 0; i < nm; i++ {
-		nf := 2 + r.Intn(7)
-		used := map[string]bool{}
-		oneofN := 0
-		for j := 0; j < nf; j++ {
-			name := names[r.Intn(len(names))]
-			if used[name] || used[jsonName(name)] {
-				continue
-			}
-			used[name], used[jsonName(name)] = true, true
-			f := Field{Name: name, JSON: jsonName(name)}
-			switch c := r.Intn(10); {
-			case c < 5:
-				f.Kind = r.Intn(10)
-			case c < 7 && i+1 < nm:
-				f.Kind, f.Msg = kMsg, i+1+r.Intn(nm-i-1)
-			case c < 8:
-				f.Kind, f.Msg = kMsg, wbase+r.Intn(len(wk))
-			default:
-				f.Kind = r.Intn(10)
-			}
-			switch c := r.Intn(10); {
-			case c < 6:
-			case c < 8:
-				f.Card = 1
-			default:
-				if f.Kind != kMsg {
-					f.Card, f.KeyKind = 2, []int{kString, kInt32, kInt64, kUint32, kUint64, kBool}[r.Intn(6)]
-				}
-			}
-			if f.Card == 0 && r.Chance(20) {
-				if oneofN == 0 || r.Chance(30) {
-					oneofN++
-				}
-				f.Oneof = oneofN
-			} else if f.Card == 0 && f.Kind != kMsg && r.Chance(15) {
-				f.Optional = true
-			}
-			s.Msgs[i].Fields = append(s.Msgs[i].Fields, f)
-		}
-		if len(s.Msgs[i].Fields) == 0 {
-			s.Msgs[i].Fields = append(s.Msgs[i].Fields, Field{Name: "a", JSON: "a", Kind: kInt32})
-		}
-		// the members of a oneof must be declared consecutively
-		sort.SliceStable(s.Msgs[i].Fields, func(a, b int) bool { return s.Msgs[i].Fields[a].Oneof < s.Msgs[i].Fields[b].Oneof })
-	}
-	return s
-}
+func richSchema(pkg string) *Schema                  { return vschema.RichSchema(pkg) }
+func randomSchema(r *vc.Rand, pkg string) *Schema     { return vschema.RandomSchema(r, pkg) }
 
 // ---- message dump ----
 func scalarVal(fd protoreflect.FieldDescriptor, v protoreflect.Value) vc.Val {
@@ -536,7 +266,7 @@ func (c *tcase) input() vc.Val {
 	for _, e := range c.query {
 		qs = append(qs, vc.L{e.k, vc.Strs(e.vs)})
 	}
-	return vc.L{c.schema.val(), c.bodyPath, ps, qs, c.trees}
+	return vc.L{c.schema.Val(), c.bodyPath, ps, qs, c.trees}
 }
 
 // ---- JSON trees ----
@@ -1045,7 +775,7 @@ func main() {
 	r := vc.NewRand(vc.Seed())
 	var cases []*tcase
 	rich := richSchema("c04")
-	rroot, rtypes := rich.build("c04")
+	rroot, rtypes := rich.Build("c04")
 	// corpus: hand-written requests that run first
 	mk := func(body string, params [][2]string, query []kvs, bodyJSON *jnode) *tcase {
 		c := &tcase{schema: rich, root: rroot, types: rtypes, bodyPath: body, params: params, query: query}
@@ -1089,7 +819,7 @@ func main() {
 	for i := 0; i < ns; i++ {
 		rr := r.Fork()
 		s := randomSchema(rr, "c04r")
-		root, types := s.build("c04r")
+		root, types := s.Build("c04r")
 		for j := 0; j < 12; j++ {
 			cases = append(cases, genCase(rr.Fork(), s, root, types))
 		}
